@@ -40,3 +40,9 @@ def seed():
 def tier():
     t = os.environ.get("VERIF_TIER", "quick")
     return t if t in ("quick", "thorough") else "quick"
+
+
+def samp(rng, population, k):
+    """`rng.sample` that never asks for more than there is (pools derived from the library may shrink)"""
+    population = list(population)
+    return rng.sample(population, min(k, len(population)))
